@@ -184,8 +184,8 @@ def judge(case, io_, mo):
                 ps.append({'kind': 'corr', 'sig': 'ipm_write', 'msg': 'IpmWriter file differs from model ipm_file'})
         if len(mo) > 1 and not ps:
             head, _, end = mo[1][3:].rpartition('|')
-            mrecs = [] if head == '-' else [iu.canon_entries('-' if r == '~' else r) for r in head.split('/')]
-            irecs = [iu.canon_entries(t) for t in ([] if rd[3:] == '-' else rd[3:].split('/'))]
+            mrecs = [] if head == '-' else [iu.canon_entries('-' if r == '~' else r, drop_other=True) for r in head.split('/')]
+            irecs = [iu.canon_entries(t, drop_other=True) for t in ([] if rd[3:] == '-' else rd[3:].split('/'))]
             if end != 'END' or mrecs != irecs:
                 ps.append({'kind': 'corr', 'sig': 'ipm_read', 'msg': 'IpmReader result differs from model iread_all (%s)' % end})
     return ps
